@@ -316,6 +316,11 @@ impl Prop for C08 {
     let sel = |y: i64, step: i64| env.tier == Tier::Thorough || y % step == (env.seed % step as u64) as i64 || SPECIAL_YEARS.contains(&y);
     match t {
       "days" => {
+        // route equivalence of the objects this property reads (see routes.rs)
+        prop_run(env, out, "routes", env.tier.pick(1600, 64000) / nshards as u32, 8800 + shard as u64, crate::routes::date_strategy(), &ev);
+        out.set_exhaustive("routes", false);
+        prop_run(env, out, "hroutes", env.tier.pick(1600, 64000) / nshards as u32, 8900 + shard as u64, crate::routes::hour_strategy(), &ev);
+        out.set_exhaustive("hroutes", false);
         // strided walks on fresh threads (see engine::stride_walks)
         stride_walks(env, out, "day", env.tier.pick(1600, 48000) / nshards as u32, 7000 + shard as u64, 0, (crate::model::NDAYS as i64) - 366, 800, &|x| vec![x], &ev);
         stride_walks(env, out, "time", env.tier.pick(800, 24000) / nshards as u32, 7100 + shard as u64, 0, (crate::model::NDAYS as i64) - 366, 800, &|x| vec![x, (x * 7919).rem_euclid(86400)], &ev);
@@ -411,6 +416,8 @@ impl Prop for C08 {
       "day" => self.eval_day(env, out, case),
       "time" => self.eval_time(env, out, case),
       "months" => self.eval_months(env, out, case),
+      "routes" => crate::routes::compare_day_routes(env, out, "routes", case, (case.a[0].clamp(0, crate::model::NDAYS as i64 - 1)) as usize, &crate::routes::fields_c08),
+      "hroutes" => crate::routes::compare_hour_routes(env, out, "hroutes", case, (case.a[0].clamp(0, crate::model::NDAYS as i64 - 1)) as usize, case.a.get(1).cloned().unwrap_or(10), &crate::routes::hour_fields_c08),
       _ => panic!("unknown sub-check {}", sub),
     }
   }
